@@ -153,6 +153,178 @@ theorem pick_eligible (V : List Nat) (es : List Edge) (bs : List Backup) (b : Ba
         obtain ⟨rfl, _⟩ := h
         exact ih rest' hp
 
+open Relsad.Islands in
+private theorem pickBackup_none (V : List Nat) (es : List Edge) (bs : List Backup) (h : pickBackup V es bs = none) :
+    ∀ b ∈ bs, b.eligible = true → b.b ∈ reach V es b.a := by
+  induction bs with
+  | nil => intro b hb; cases hb
+  | cons c cs ih =>
+    unfold pickBackup at h
+    by_cases hc : (c.eligible && !decide (c.b ∈ reach V es c.a)) = true
+    · simp [hc] at h
+    · simp only [hc] at h
+      cases hp : pickBackup V es cs with
+      | some r => simp [hp] at h
+      | none =>
+        intro b hb he
+        rcases List.mem_cons.mp hb with rfl | hb'
+        · simp only [Bool.and_eq_true, Bool.not_eq_true', decide_eq_false_iff_not, not_and, not_not] at hc
+          exact hc he
+        · exact ih hp b hb' he
+
+open Relsad.Islands in
+private theorem pickBackup_cover (V : List Nat) (es : List Edge) (bs : List Backup) (b : Backup) (rest : List Backup)
+    (h : pickBackup V es bs = some (b, rest)) : (∀ x ∈ bs, x = b ∨ x ∈ rest) ∧ rest.length + 1 = bs.length := by
+  induction bs generalizing rest with
+  | nil => simp [pickBackup] at h
+  | cons c cs ih =>
+    unfold pickBackup at h
+    by_cases hc : (c.eligible && !decide (c.b ∈ reach V es c.a)) = true
+    · simp only [hc, if_true, Option.some.injEq, Prod.mk.injEq] at h
+      obtain ⟨rfl, rfl⟩ := h
+      refine ⟨fun x hx => ?_, by simp⟩
+      rcases List.mem_cons.mp hx with rfl | hx'
+      · exact Or.inl rfl
+      · exact Or.inr hx'
+    · simp only [hc] at h
+      cases hp : pickBackup V es cs with
+      | none => simp [hp] at h
+      | some r =>
+        obtain ⟨d, rest'⟩ := r
+        simp only [hp, Option.some.injEq, Prod.mk.injEq] at h
+        obtain ⟨rfl, rfl⟩ := h
+        obtain ⟨h1, h2⟩ := ih rest' hp
+        refine ⟨fun x hx => ?_, by simp [h2]⟩
+        rcases List.mem_cons.mp hx with rfl | hx'
+        · exact Or.inr List.mem_cons_self
+        · rcases h1 x hx' with e | e
+          · exact Or.inl e
+          · exact Or.inr (List.mem_cons_of_mem _ e)
+
+open Relsad.Islands in
+/-- closing backups only adds edges -/
+private theorem closeBackups_sub (V : List Nat) : ∀ (n : Nat) (es : List Edge) (bs : List Backup),
+    ∀ e ∈ es, e ∈ (closeBackups V n es bs).1 := by
+  intro n
+  induction n with
+  | zero => intro es bs e he; simpa [closeBackups] using he
+  | succ n ih =>
+    intro es bs e he
+    unfold closeBackups
+    cases hf : pickBackup V es bs with
+    | none => simpa using he
+    | some r =>
+      obtain ⟨b, rest⟩ := r
+      exact ih _ _ e (List.mem_cons_of_mem _ he)
+
+private theorem rtg_mono {es es' : List Edge} (h : ∀ e ∈ es, e ∈ es') {a b : Nat} (p : ReflTransGen (Adj es) a b) :
+    ReflTransGen (Adj es') a b := by
+  induction p with
+  | refl => exact ReflTransGen.refl
+  | tail _ hab ih =>
+    refine ReflTransGen.tail ih ?_
+    rcases hab with hab | hab
+    · exact Or.inl (h _ hab)
+    · exact Or.inr (h _ hab)
+
+open Relsad.Islands in
+/-- **Every backup line that may be closed ends up inside one island**: when the closing has finished, the two ends of
+every eligible backup (healthy, no sectioning next to it) are joined by an in-service path — either the backup itself was
+closed, or it was not needed because its ends were already joined.  Together with `closeBackups_forest` (no loop) and
+`pick_eligible` (only eligible ones): the islands after closing are the connected pieces of the in-service lines plus
+all eligible backups, whatever the order in which the backups are looked at, so which of several possible backups the
+implementation picks does not change the islands. -/
+theorem closeBackups_complete (V : List Nat) :
+    ∀ (n : Nat) (es : List Edge) (bs : List Backup), Closed V es → (∀ b ∈ bs, b.a ∈ V ∧ b.b ∈ V) → bs.length ≤ n →
+      ∀ b ∈ bs, b.eligible = true → ReflTransGen (Adj (closeBackups V n es bs).1) b.a b.b := by
+  intro n
+  induction n with
+  | zero =>
+    intro es bs _ _ hlen b hb
+    have : bs = [] := List.length_eq_zero_iff.mp (Nat.le_zero.mp hlen)
+    rw [this] at hb; cases hb
+  | succ n ih =>
+    intro es bs hE hbs hlen b hb he
+    unfold closeBackups
+    cases hf : pickBackup V es bs with
+    | none =>
+      simp only
+      exact (mem_reach_iff V es hE b.a (hbs b hb).1 b.b).mp (pickBackup_none V es bs hf b hb he)
+    | some r =>
+      obtain ⟨c, rest⟩ := r
+      simp only
+      obtain ⟨hmem, hrest⟩ := pickBackup_mem V es bs c rest hf
+      obtain ⟨hcov, hl⟩ := pickBackup_cover V es bs c rest hf
+      have hcab := hbs c hmem
+      have hE' := closed_cons V es hE c.a c.b hcab.1 hcab.2
+      rcases hcov b hb with rfl | hbr
+      · -- the backup that was closed
+        apply rtg_mono (closeBackups_sub V n ((b.a, b.b) :: es) rest)
+        exact ReflTransGen.single (Or.inl List.mem_cons_self)
+      · exact ih _ rest hE' (fun x hx => hbs x (hrest x hx)) (by omega) b hbr he
+
+open Relsad.Islands in
+/-- every in-service edge after the closing is an original one or an eligible backup -/
+private theorem closeBackups_edges (V : List Nat) : ∀ (n : Nat) (es : List Edge) (bs : List Backup),
+    ∀ e ∈ (closeBackups V n es bs).1, e ∈ es ∨ ∃ b ∈ bs, b.eligible = true ∧ e = (b.a, b.b) := by
+  intro n
+  induction n with
+  | zero => intro es bs e he; exact Or.inl (by simpa [closeBackups] using he)
+  | succ n ih =>
+    intro es bs e he
+    unfold closeBackups at he
+    cases hf : pickBackup V es bs with
+    | none => rw [hf] at he; exact Or.inl (by simpa using he)
+    | some r =>
+      obtain ⟨c, rest⟩ := r
+      rw [hf] at he
+      simp only at he
+      obtain ⟨hmem, hrest⟩ := pickBackup_mem V es bs c rest hf
+      rcases ih _ _ e he with h | ⟨b, hb, hbe, rfl⟩
+      · rcases List.mem_cons.mp h with rfl | h'
+        · exact Or.inr ⟨c, hmem, pick_eligible V es bs c rest hf, rfl⟩
+        · exact Or.inl h'
+      · exact Or.inr ⟨b, hrest b hb, hbe, rfl⟩
+
+open Relsad.Islands in
+/-- **The islands after closing do not depend on which backup is picked first**: two buses share an island after the
+closing exactly when a path of in-service lines and eligible backup lines joins them — a description in which the order
+of the backups, and the choice among several that could join the same two islands, does not occur. -/
+theorem closeBackups_islands (V : List Nat) (n : Nat) (es : List Edge) (bs : List Backup) (hE : Closed V es)
+    (hbs : ∀ b ∈ bs, b.a ∈ V ∧ b.b ∈ V) (hn : bs.length ≤ n) (x y : Nat) :
+    ReflTransGen (Adj (closeBackups V n es bs).1) x y ↔
+    ReflTransGen (Adj (es ++ (bs.filter (·.eligible)).map (fun b => (b.a, b.b)))) x y := by
+  constructor
+  · apply rtg_mono
+    intro e he
+    rcases closeBackups_edges V n es bs e he with h | ⟨b, hb, hbe, rfl⟩
+    · exact List.mem_append_left _ h
+    · exact List.mem_append_right _ (List.mem_map.mpr ⟨b, List.mem_filter.mpr ⟨hb, hbe⟩, rfl⟩)
+  · intro p
+    induction p with
+    | refl => exact ReflTransGen.refl
+    | tail _ hab ih =>
+      refine ih.trans ?_
+      have step : ∀ u v, (u, v) ∈ es ++ (bs.filter (·.eligible)).map (fun b => (b.a, b.b)) →
+          ReflTransGen (Adj (closeBackups V n es bs).1) u v := by
+        intro u v huv
+        rcases List.mem_append.mp huv with h | h
+        · exact ReflTransGen.single (Or.inl (closeBackups_sub V n es bs _ h))
+        · obtain ⟨b, hb, hbe⟩ := List.mem_map.mp h
+          obtain ⟨hb1, hb2⟩ := List.mem_filter.mp hb
+          simp only [Prod.mk.injEq] at hbe
+          rw [← hbe.1, ← hbe.2]
+          exact closeBackups_complete V n es bs hE hbs hn b hb1 hb2
+      rcases hab with hab | hab
+      · exact step _ _ hab
+      · exact rtg_symm (step _ _ hab)
+
+open Relsad.Islands in
+/-- Non-vacuity: islands {0,1} and {2,3}, two eligible backups between them and one that is not: the first is closed,
+the second is not needed, the ineligible one stays open; 0 and 3 are joined afterwards. -/
+example : (closeBackups [0, 1, 2, 3] 3 [(0, 1), (2, 3)] [⟨7, 1, 3, false⟩, ⟨8, 1, 2, true⟩, ⟨9, 0, 3, true⟩]) =
+    ([(1, 2), (0, 1), (2, 3)], [8]) := by decide +kernel
+
 /-- Non-vacuity: the hypotheses of the island theorems are met by a concrete network (two feeders
 0-1-2 and 0-3-4 with line 0-1 out of service), on which bus 4 is in the island of bus 0 and bus 1 is not. -/
 example : Closed [0, 1, 2, 3, 4] [(1, 2), (0, 3), (3, 4)] ∧
